@@ -205,7 +205,13 @@ func (*hdec) Run(rc *core.RunCtx) *core.RunResult {
 		res.Violate("HARNESS", "no-corpus", "hdec", "no samples harvested")
 		return res
 	}
-	s := samples[t.Intn(len(samples))]
+	// systematic walk: consecutive run indices visit the pairs in turn (rotated by the seed),
+	// each round with another fault family and boundary value; everything else is drawn
+	nS := len(samples)
+	si := int((uint64(rc.Idx) + (rc.Seed%1000003)*7919) % uint64(nS))
+	round := rc.Idx / nS
+	_ = t.Intn(nS) // keeps the tape shape of earlier versions
+	s := samples[si]
 	p := decPair{s: s, group: s.Format}
 	switch t.Intn(16) {
 	case 0:
@@ -279,11 +285,18 @@ func (*hdec) Run(rc *core.RunCtx) *core.RunResult {
 	planNames := []string{"", "transient EIO", "persistent EIO", "early EOF", "cancel"}
 	planKinds := []string{"", "abort_eio_transient", "abort_eio_persistent", "abort_eof", "abort_cancel"}
 	family := t.Intn(12)
+	satByte := boundaryBytes[t.Intn(len(boundaryBytes))]
+	if rc.Tier == "thorough" {
+		// thorough: the families and boundary values rotate with the round, so that a pair
+		// meets all of them instead of drawing the same one twice
+		family = []int{0, 2, 4, 6, 1, 7, 3, 8, 5, 9}[round%10]
+		satByte = boundaryBytes[(round/10+round)%len(boundaryBytes)]
+	}
 	switch {
 	case family < 2 && len(orig) > 0:
 		// length-field saturation: every offset the fault-free decode read with a small
 		// width (and the first bytes), overwritten with one boundary value
-		b := boundaryBytes[t.Intn(len(boundaryBytes))]
+		b := satByte
 		width := 1 + t.Intn(2)*t.Intn(4)
 		seen := map[int]bool{}
 		var offs []int
